@@ -5,6 +5,9 @@
     (src/naive/date/mod.rs), `NaiveTime` (src/naive/time/mod.rs) and `FixedOffset`
     (src/offset/fixed.rs).  Each is `fmt::Debug::fmt(self, f)` — a function of its own here so that
     the `Display` column of the driver and the theorems name it.
+  * `local_dt_debug` / `local_dt_display` / `local_from_str`: `DateTime<Local>` — the generic
+    `DateTime<Tz>` impls at `Offset = FixedOffset`, and `impl FromStr for DateTime<Local>`
+    (src/datetime/mod.rs).
   * `parseItemsSt` / `time_from_str_st`: `impl FromStr for NaiveTime` with the `&mut Parsed` threaded
     exactly as the code threads it: the optional seconds run (`parse_and_remainder(&mut parsed, s,
     SECOND_AND_NANOS).unwrap_or(s)`) leaves in `parsed` whatever it stored before failing, and the
@@ -24,6 +27,21 @@ def date_display (d : Date) : W := date_debug d
 def time_display (t : Time) : W := time_debug t
 /-- `impl fmt::Display for FixedOffset`: `fmt::Debug::fmt(self, f)` -/
 def offset_display (off : Int) : List Nat := offset_debug off
+
+/-! ### `DateTime<Local>` -/
+
+/-- `impl fmt::Debug for DateTime<Tz>` at `Tz = Local` (`Offset = FixedOffset`): the generic impl with
+the `FixedOffset` the zone assigned to the value as offset text -/
+def local_dt_debug (z : Zoned) : W := zoned_debug z (offset_debug z.off)
+/-- `impl fmt::Display for DateTime<Tz>` at `Tz = Local` -/
+def local_dt_display (z : Zoned) : W := zoned_display z (offset_display z.off)
+/-- `impl FromStr for DateTime<Local>`: `s.parse::<DateTime<FixedOffset>>().map(|dt|
+dt.with_timezone(&Local))`.  `localOff` is `Local.offset_from_utc_datetime`, the offset the system
+zone prescribes at an instant — a parameter here (the zone database is not part of this model). -/
+def local_from_str (localOff : NaiveDT → Int) (s : List Nat) : Parsed.RP Zoned :=
+  match fixed_from_str s with
+  | .ok (.ok z) => .ok (.ok (z.with_timezone (localOff z.utc)))
+  | r => r
 
 /-! ### `FromStr for NaiveTime` with the parse state threaded through the failed seconds run -/
 
